@@ -171,6 +171,8 @@ impl<R: BufRead + Seek + Position> ReadValue for ValueReader<R> {
         len: usize,
     ) -> Result<<Self::Types as FieldTypes>::Bytes, ProtobufError> {
         self.check_has_bytes(len)?;
+        #[cfg(rten_verif)]
+        crate::verif::count_steps(len as u64);
         let mut buf = vec![0; len];
         self.inner.read_exact(&mut buf)?;
         Ok(buf)
@@ -326,12 +328,16 @@ impl<'a, R: ReadValue> ReadValue for LimitReader<'a, R> {
     type Types = R::Types;
 
     fn read_i32(&mut self) -> Result<i32, ProtobufError> {
+        #[cfg(rten_verif)]
+        crate::verif::count_steps(1);
         self.check_has_bytes(4)?;
         let val = self.inner.read_i32()?;
         Ok(val)
     }
 
     fn read_i64(&mut self) -> Result<i64, ProtobufError> {
+        #[cfg(rten_verif)]
+        crate::verif::count_steps(1);
         self.check_has_bytes(8)?;
         let val = self.inner.read_i64()?;
         Ok(val)
@@ -339,6 +345,8 @@ impl<'a, R: ReadValue> ReadValue for LimitReader<'a, R> {
 
     fn read_varint(&mut self) -> Result<u64, ProtobufError> {
         // Varints are at least 1 byte long, and can be up to 10.
+        #[cfg(rten_verif)]
+        crate::verif::count_steps(1);
         self.check_has_bytes(1)?;
         let result = self.inner.read_varint();
         if self.position() > self.end {
